@@ -141,12 +141,16 @@ def parse_summary(r):
 def report_mismatches(ck, r, prefix=""):
     for m in re.finditer(r"^MISMATCH (\{.*\})$", r.stdout or "", re.M):
         d = json.loads(m.group(1))
-        key = "replay:%s%s:%s" % (prefix, {1: "insert", 2: "remove", 3: "search"}.get(d["op"], "?"), d["what"])
+        key = "replay:%s%s:%s" % (prefix, {1: "insert", 2: "remove", 3: "search"}.get(d.get("op"), "?"), d["what"])
         ck.violation(key, d)
 
 
 def handle_crash(ck, r, phase):
     err = (r.stderr or "")[-3000:]
+    if err.startswith("TIMEOUT"):
+        # the harness finishes in well under a minute on a correct tree and bounds its own loops: a library call did not return
+        ck.violation("hang:" + phase, {"what": "a library call (or an iteration built on it) did not terminate while replaying a specification behaviour", "detail": err})
+        return
     if r.returncode in (98, 99) or "Sanitizer" in err or "runtime error" in err or r.returncode < 0:
         ck.violation("crash:" + phase, {"what": "sanitizer abort / crash inside a library call while replaying a specification behaviour",
                                         "rc": r.returncode, "stderr": err})
